@@ -110,20 +110,33 @@ func (n *node[T]) Methods() []string {
 	return nil
 }
 
-// 添加一个处理函数
-func (n *node[T]) addMethods(h T, pattern string, ms []types.Middleware[T], methods ...string) error {
-	// 先验证所有的请求方法，保证出错时不会只添加了部分内容。
+// 验证 methods 是否都能添加到节点 n，n 可以为空，表示节点还不存在。
+func (tree *Tree[T]) checkMethods(n *node[T], methods []string) error {
 	for i, m := range methods {
-		if m == http.MethodOptions || m == http.MethodHead || (n.root.hasTrace && m == http.MethodTrace) {
+		if m == http.MethodOptions || m == http.MethodHead || (tree.hasTrace && m == http.MethodTrace) {
 			return fmt.Errorf("无法手动添加 OPTIONS/HEAD/TRACE 请求方法")
 		}
 		if _, found := methodIndexMap[m]; !found {
 			return fmt.Errorf("该请求方法 %s 不被支持", m)
 		}
 
-		if _, found := n.handlers[m]; found || slices.Contains(methods[:i], m) {
+		if slices.Contains(methods[:i], m) {
 			return fmt.Errorf("该请求方法 %s 已经存在", m)
 		}
+		if n != nil {
+			if _, found := n.handlers[m]; found {
+				return fmt.Errorf("该请求方法 %s 已经存在", m)
+			}
+		}
+	}
+	return nil
+}
+
+// 添加一个处理函数
+func (n *node[T]) addMethods(h T, pattern string, ms []types.Middleware[T], methods ...string) error {
+	// 先验证所有的请求方法，保证出错时不会只添加了部分内容。
+	if err := n.root.checkMethods(n, methods); err != nil {
+		return err
 	}
 
 	for _, m := range methods {
